@@ -15,7 +15,7 @@ use crate::{
         Chain,
     },
     handler::Handler,
-    parse::utils::is_block_expr,
+    parse::utils::{is_block_expr, is_lower_precedence_than_method_call},
 };
 
 struct ActionExprPos<'a> {
@@ -996,11 +996,24 @@ impl<'a> JoinOutput<'a> {
 
                     let initial_expr = replaced_expr.as_ref().unwrap_or(initial_expr);
 
+                    //
+                    // Next actions are applied as method calls, so initial value with lower precedence
+                    // (`-a`, `a + b`, `a as T`, `a..b` etc.) should be parenthesized.
+                    //
+                    let needs_parens = initial_expr
+                        .inner_exprs()
+                        .and_then(|exprs| exprs.first())
+                        .map_or(false, is_lower_precedence_than_method_call);
+
                     (
                         prev_def_stream
                             .map(|prev| quote! { #prev #def_stream })
                             .or(def_stream),
-                        quote! { #initial_expr },
+                        if needs_parens {
+                            quote! { (#initial_expr) }
+                        } else {
+                            quote! { #initial_expr }
+                        },
                     )
                 }
             }
